@@ -132,6 +132,15 @@ func runC10(r *fw.Runner) {
 			c10Compare(c, composer, doc, l, "directed", fmt.Sprint("id-shared-by-key-and-service-", i))
 			c10Compare(c, composer, both, l, "directed", fmt.Sprint("id-shared-by-key-and-service-in-document-", i))
 		}
+		// an also-known-as list in which a URI occurs more than once (a validated ietf-json-patch can append to the list): difference
+		// removes every occurrence, union adds nothing that is there
+		dup := map[string]interface{}{"publicKey": []interface{}{k1}, "alsoKnownAs": []interface{}{"did:example:a", "did:example:b", "did:example:a", "did:example:c", "did:example:b"}}
+		for i, l := range [][]interface{}{
+			{gen.PRemoveAka("did:example:a")}, {gen.PRemoveAka("did:example:b", "did:example:zzz")}, {gen.PAddAka("did:example:a", "did:example:d")}, {gen.PRemoveAka("did:example:a"), gen.PAddAka("did:example:a")},
+			{gen.PRemoveAka("did:example:c", "did:example:a", "did:example:b")},
+		} {
+			c10Compare(c, composer, dup, l, "directed", fmt.Sprint("also-known-as-with-repeated-uri-", i))
+		}
 		plain := map[string]interface{}{"publicKey": []interface{}{k1}}
 		for i, l := range [][]interface{}{{gen.PAddAka("")}, {gen.PAddAka("", "#me")}, {gen.PAddAka("x"), gen.PAddAka("")}} {
 			c10Compare(c, composer, plain, l, "directed", fmt.Sprint("odd-uri-references-fresh-", i))
